@@ -384,8 +384,9 @@ func main() {
 	accept := func(kind string, wire []byte, expectCodec int, want [][]byte) {
 		c.Obs.Evaluations++
 		mc := &memConn{r: &tx.ChunkReader{Data: wire, Rng: c.Rng.Fork()}}
-		var frames [][]byte
+		var frames, sent, rnds [][]byte
 		k, arg := tx.KOk, int64(0)
+		sendDesc := ""
 		p, pv := hx.Recover(func() {
 			conn, err := transport.Listen(&oneListener{c: mc}).Accept()
 			if err != nil {
@@ -396,17 +397,34 @@ func main() {
 			for {
 				if err := conn.Recv(context.Background(), b); err != nil {
 					k, arg = tx.Project(err)
-					return
+					break
 				}
 				frames = append(frames, append([]byte{}, b.Buf...))
 			}
+			// the accepted connection answers: the client must be able to read it with its codec
+			for _, n := range []int{16, 8, 4 * c.Rng.Range(2, 30)} {
+				pl := c.Rng.Bytes(n)
+				pl[n-1] = byte(1 + c.Rng.Intn(3)) // not a multiple of 4: a padded writer would add padding
+				before := mc.w.Len()
+				if err := conn.Send(context.Background(), &bin.Buffer{Buf: append([]byte{}, pl...)}); err != nil {
+					sendDesc = "Send on the accepted connection failed: " + err.Error()
+					return
+				}
+				sent = append(sent, pl)
+				rnd := make([]byte, 4)
+				if fl := mc.w.Len() - before; fl > 4+n && fl <= 4+n+3 { // padded intermediate: padding follows the payload
+					copy(rnd, mc.w.Bytes()[before+4+n:])
+				}
+				rnds = append(rnds, rnd)
+			}
 		})
+		out := append([]byte{}, mc.w.Bytes()...)
 		if p {
 			k = tx.KPanic
 		}
 		c.Count(fmt.Sprintf("%s:%s", kind, tx.KindNames[k]))
 		js := map[string]interface{}{"accept": ints(wire)}
-		sh, ix := c.Case(fmt.Sprintf("(CAccept %s %s (%d, %s))", tx.HB(wire), hbList(frames), k, hx.Z(arg)), js)
+		sh, ix := c.Case(fmt.Sprintf("(CAccept %s %s (%d, %s) %s %s %s)", tx.HB(wire), hbList(frames), k, hx.Z(arg), hbList(sent), hbList(rnds), tx.HB(out)), js)
 		if verbose {
 			fmt.Printf("replay: accept stream %v -> %d frames then %s(%d) %v\n", wire, len(frames), tx.KindNames[k], arg, pv)
 		}
@@ -423,6 +441,17 @@ func main() {
 			if !ok {
 				c.Violate("detect-wrong-codec", fmt.Sprintf("client used %s (tag %x) and sent %d frames; the accepted connection delivered %d frames then %s(%d)",
 					tx.CodecNames[expectCodec], headerOf(expectCodec), len(want), len(frames), tx.KindNames[k], arg), sh, ix, js)
+				return
+			}
+			// the client reads the answer with the codec it chose
+			back, k2, _, _ := readAll(tx.NewCodec(expectCodec, 0), &tx.ChunkReader{Data: out, Rng: c.Rng.Fork()})
+			okBack := sendDesc == "" && len(back) == len(sent) && k2 == tx.KEof
+			for i := 0; okBack && i < len(sent); i++ {
+				okBack = bytes.Equal(back[i], sent[i])
+			}
+			if !okBack {
+				c.Violate("detect-wrong-codec", fmt.Sprintf("client used %s: the accepted connection sent %d frames, the client's codec read %d frames then %s %s (the listener answers with another codec)",
+					tx.CodecNames[expectCodec], len(sent), len(back), tx.KindNames[k2], sendDesc), sh, ix, js)
 			}
 		}
 	}
